@@ -299,6 +299,18 @@ class CallMixin:
         self.ctx.models_used.add("np.allclose(a, b): |a_i - b_i| <= atol + rtol * |b_i| for every i (defaults 1e-8, 1e-5)")
         return mk_bool(z3.ForAll([i], z3.Implies(z3.And(0 <= i, i < l1), ab(x - y) <= atol + rtol * ab(y)), qid="allclose_%s" % i))
 
+    def bi_math_isclose(self, args, kwargs, st, spec):
+        x, y = self.to_real(args[0]), self.to_real(args[1])
+        rtol = self.to_real(kwargs["rel_tol"]) if "rel_tol" in kwargs else z3.RealVal("1/1000000000")
+        atol = self.to_real(kwargs["abs_tol"]) if "abs_tol" in kwargs else z3.RealVal(0)
+        ab = lambda t: z3.If(t >= 0, t, -t)
+        mx = z3.If(ab(x) >= ab(y), ab(x), ab(y))
+        bound = z3.If(rtol * mx >= atol, rtol * mx, atol)
+        self.ctx.models_used.add("math.isclose(a, b): |a - b| <= max(rel_tol * max(|a|, |b|), abs_tol) (defaults 1e-9, 0)")
+        return mk_bool(ab(x - y) <= bound)
+    bi_isclose = bi_math_isclose
+    bi_np_isclose = bi_math_isclose
+
     def bi_np_subtract(self, args, kwargs, st, spec):
         a, b = args
         e1, arr1, off1, l1 = self.seq_of(a, st, spec)
